@@ -214,8 +214,11 @@ NO_INLINE_NAMES = {"check_ordering", "get_function_def", "get_pairs", "evaluate_
                    "stringify", "equals", "compare", "can_accept", "get_arity", "arity", "name", "from_ident", "all"}
 
 
-def _module_of(d):
-    return "::".join((d or "").split("::")[:2])
+def _module_of(d, kind_=None):
+    """module path of a def path: a free fn loses its own name, a method loses the type as well"""
+    segs = (d or "").split("::")
+    n = 2 if kind_ == "AssocFn" else 1
+    return "::".join(segs[:-n]) if len(segs) > n else segs[0]
 
 
 def inlined_fn(crate, path, depth=2):
@@ -234,7 +237,7 @@ def inlined_fn(crate, path, depth=2):
             return None
         if g.get("kind") not in ("Fn", "AssocFn") or g.get("vis") == "pub":
             return None
-        if last(d) in NO_INLINE_NAMES or _module_of(d) != _module_of(path):
+        if last(d) in NO_INLINE_NAMES or _module_of(d, g.get("kind")) != _module_of(path, f.get("kind")):
             return None
         if not all(kind(p_) in ("Bind",) or (kind(p_) == "Ref" and kind(p_.get("pat")) == "Bind") for p_ in g.get("params", [])):
             return None
